@@ -1305,3 +1305,124 @@ Example T02a_mcm_example :
 Proof. exact mcm_fires_example. Qed.
 
 End Abs.
+
+(* ------------------------------------------------------------------------------------------- *)
+(* iteration tranche: remove_redundant_iter, optimize_contains_types, replace_sorted_heapq
+   (design/C02_perf.md). Fragment: integers, lists with identity, tuples, one-shot iterators, generator
+   functions g<k>() whose elements come from a world W and whose steps are events; a run ends with an
+   exception class or none, an environment and a store (lists, iterator positions, event trace). *)
+Require Pyrefact.RulesPerfModel Pyrefact.RulesPerfProofs.
+
+Module Perf.
+Import ZArith.
+Import ListNotations.
+Import Pyrefact.RulesPerfModel Pyrefact.RulesPerfProofs.
+
+(* remove_redundant_iter (after 32fac44, 5ea8100, 48376de): for every module of the fragment, every world and
+   every loop budget the rewritten module ends with the same exception class, environment, lists, iterator
+   positions and event trace. *)
+Theorem T02p_remove_redundant_iter_preserves : forall W fuel p, run W fuel (rri p) = run W fuel p.
+Proof. exact rri_preserves. Qed.
+Print Assumptions T02p_remove_redundant_iter_preserves.
+
+(* the rule before 32fac44 (any argument): the producer is interleaved with the loop body *)
+Theorem T02p_old_iter_generator_refuted :
+  exists W fuel p, obs (run W fuel (rri_before_32fac44 p)) <> obs (run W fuel p).
+Proof. exact rri_before_32fac44_refuted. Qed.
+Print Assumptions T02p_old_iter_generator_refuted.
+
+(* the rule before 48376de (names of lists): the loop body mutates what it iterates over (F02-65) *)
+Theorem T02p_old_iter_snapshot_refuted :
+  exists W fuel p, obs (run W fuel (rri_before_48376de p)) <> obs (run W fuel p).
+Proof. exact rri_before_48376de_refuted. Qed.
+Print Assumptions T02p_old_iter_snapshot_refuted.
+
+Example T02p_iter_examples :
+  rri p_interleave = p_interleave /\ rri p_snapshot = p_snapshot /\
+  obs (run W12 5 p_snapshot) = (None, [EvPrint (RList [])]) /\
+  obs (run W12 5 (rri_before_48376de p_snapshot)) = (None, [EvPrint (RList [2%Z])]).
+Proof. repeat split; reflexivity. Qed.
+
+(* optimize_contains_types, the wrapper part ('a in list(c)' -> 'a in c', 'a in [c for c in xs]' -> generator;
+   after 2835a2e, 5ea8100, 653d272): preserved for every module *)
+Theorem T02p_contains_wrappers_preserves : forall W fuel p, run W fuel (oct_wrappers p) = run W fuel p.
+Proof. exact oct_wrappers_preserves. Qed.
+Print Assumptions T02p_contains_wrappers_preserves.
+
+(* the whole rule, with 'a in [1, 2]' -> 'a in {1, 2}': refuted by an unhashable element (F02-63) ... *)
+Theorem T02p_contains_refuted : exists W fuel p, obs (run W fuel (oct p)) <> obs (run W fuel p).
+Proof. exact oct_refuted. Qed.
+Print Assumptions T02p_contains_refuted.
+
+(* ... and preserved when every tested element is a literal *)
+Theorem T02p_contains_partial : forall W fuel p, prog_all oct_safe p = true -> run W fuel (oct p) = run W fuel p.
+Proof. exact oct_partial. Qed.
+Print Assumptions T02p_contains_partial.
+
+(* the rule before 2835a2e / 653d272 (any argument): an iterator is used up by list() but only up to the first
+   hit by `in`; a generator expression stops at the first hit *)
+Theorem T02p_old_contains_consumption_refuted :
+  exists W fuel p, obs (run W fuel (oct_before_2835a2e p)) <> obs (run W fuel p).
+Proof. exact oct_before_2835a2e_refuted. Qed.
+Print Assumptions T02p_old_contains_consumption_refuted.
+
+Theorem T02p_old_contains_lazy_refuted :
+  exists W fuel p, obs (run W fuel (oct_before_2835a2e p)) <> obs (run W fuel p).
+Proof. exact oct_before_653d272_refuted. Qed.
+Print Assumptions T02p_old_contains_lazy_refuted.
+
+Example T02p_contains_examples :
+  oct p_consumed = p_consumed /\ oct p_lazy = p_lazy /\
+  obs (run W12 5 p_lazy) = (None, [EvPull 0 0; EvPull 0 1; EvDone 0; EvPrint (RBool true)]) /\
+  obs (run W12 5 (oct_before_2835a2e p_lazy)) = (None, [EvPull 0 0; EvPrint (RBool true)]).
+Proof. repeat split; reflexivity. Qed.
+
+(* replace_sorted_heapq: refuted four ways (open findings) ... *)
+Theorem T02p_heapq_empty_refuted : exists W fuel p, obs (run W fuel (hq p)) <> obs (run W fuel p).
+Proof. exact hq_refuted_empty. Qed.
+Print Assumptions T02p_heapq_empty_refuted.
+
+Theorem T02p_heapq_ties_refuted : exists W fuel p, obs (run W fuel (hq p)) <> obs (run W fuel p).
+Proof. exact hq_refuted_ties. Qed.
+Print Assumptions T02p_heapq_ties_refuted.
+
+Theorem T02p_heapq_negative_n_refuted : exists W fuel p, obs (run W fuel (hq p)) <> obs (run W fuel p).
+Proof. exact hq_refuted_negative_n. Qed.
+Print Assumptions T02p_heapq_negative_n_refuted.
+
+Theorem T02p_heapq_tail_zero_refuted : exists W fuel p, obs (run W fuel (hq p)) <> obs (run W fuel p).
+Proof. exact hq_refuted_tail_zero. Qed.
+Print Assumptions T02p_heapq_tail_zero_refuted.
+
+Example T02p_heapq_empty_classes :
+  obs (run W12 5 p_empty) = (Some IndexErr, []) /\ obs (run W12 5 (hq p_empty)) = (Some ValueErr, []).
+Proof. exact hq_empty_classes. Qed.
+
+(* ... and preserved when every rewritten site is safe: [0] / [-1] of a non-empty display ([-1] without key),
+   [:n] and [-n:] with a positive literal n ([-n:] without key); any argument, consumed or not *)
+Theorem T02p_heapq_partial : forall W fuel p, prog_all (hq_ok p) p = true -> run W fuel (hq p) = run W fuel p.
+Proof. exact hq_partial. Qed.
+Print Assumptions T02p_heapq_partial.
+
+(* the stable sort and min / max: the facts the partial theorem rests on *)
+Theorem T02p_sorted_head_is_first_min : forall k l,
+  match isort k l with [] => minby k l = None | z :: _ => minby k l = Some z end.
+Proof. exact isort_head. Qed.
+Print Assumptions T02p_sorted_head_is_first_min.
+
+Theorem T02p_sorted_last_is_max_without_key : forall l,
+  match rev (isort false l) with [] => maxby false l = None | z :: _ => maxby false l = Some z end.
+Proof. exact isort_last. Qed.
+Print Assumptions T02p_sorted_last_is_max_without_key.
+
+(* the congruence all of the above go through: a rewrite of expressions that preserves their evaluation under
+   the invariant of a module's globals (names the module never binds are unbound; a name that is only ever
+   assigned collections holds one) preserves the run of the module *)
+Theorem T02p_congruence : forall W p fe fi ok,
+  (forall en e h, ok e = true -> Inv p en -> eval W en (fe e) h = eval W en e h) ->
+  (forall en e h, ok e = true -> Inv p en -> eval_it W en (fi e) h = eval_it W en e h) ->
+  forall fuel, prog_all ok p = true -> run W fuel (map (map_stmt fe fi) p) = run W fuel p.
+Proof. exact run_map. Qed.
+Print Assumptions T02p_congruence.
+
+End Perf.
